@@ -392,6 +392,10 @@ def find_fns(text, msk, blocks):
         f.params_open = i
         f.params_close = rs.match_close(msk, i)
         body = rs.find_depth0(msk, f.params_close + 1, '{;')
+        # braces that belong to a Verus spec clause (e.g. `ensures r is Some ==> { .. }`) are not the body
+        while body >= 0 and msk[body] == '{' and re.search(r'\b(requires|ensures|decreases|recommends)\b', msk[f.params_close + 1:body]) \
+                and msk[rs.line_start(msk, body):body].strip() != '':
+            body = rs.find_depth0(msk, rs.match_close(msk, body) + 1, '{;')
         if body < 0:
             continue
         f.has_body = msk[body] == '{'
